@@ -221,6 +221,21 @@ func replaceOverrideRefs(m *ir.Module, exprIdx int, overrideValues map[ir.Overri
 // Returns true if the expression was folded.
 func tryFoldGlobalExpr(m *ir.Module, exprIdx int) bool {
 	expr := &m.GlobalExpressions[exprIdx]
+	if un, isUnary := expr.Kind.(ir.ExprUnary); isUnary {
+		if int(un.Expr) >= len(m.GlobalExpressions) {
+			return false
+		}
+		operand, ok := m.GlobalExpressions[un.Expr].Kind.(ir.Literal)
+		if !ok {
+			return false
+		}
+		result := evalUnaryOp(un.Op, operand.Value)
+		if result == nil {
+			return false
+		}
+		expr.Kind = ir.Literal{Value: result}
+		return true
+	}
 	bin, ok := expr.Kind.(ir.ExprBinary)
 	if !ok {
 		return false
